@@ -202,6 +202,29 @@ def tok_int(tok: str, n: int):
     return INT_TOKS.get(tok)
 
 
+NEAR_EPS = {'dec10': '0.0000000001', 'dec12': '0.000000000001', 'dbl10': '0.0000000001', 'dbl13': '0.0000000000001',
+            'calc': '1e-10', 'calcdec': '0.000000000001'}
+NEAR_BASE = {'0.5': '0.5', '1.5': '1.5', '2.5': '2.5'}
+
+
+def near_text(tok: str, off: int, sp: str, n: int, in_pred: bool = False) -> str:
+    """the near-integer argument  tok + off * eps  of SeqModel!NearV in the spelling sp: eps is a concrete tiny
+    number (SeqModel!LawNear: the outcome does not depend on eps), written as an xs:decimal literal, an
+    xs:double literal or computed.  Pure text arithmetic on decimal digits, no semantics."""
+    base = NEAR_BASE.get(tok) or str(tok_int(tok, n))
+    eps = NEAR_EPS[sp]
+    if sp in ('calc', 'calcdec'):
+        if sp == 'calc' and tok == 'len' and in_pred:
+            base = 'last()'
+        z = '0e0' if sp == 'calc' else '0.0'
+        return f'({base} {"+" if off >= 0 else "-"} {eps if off else z})'
+    v = Decimal(base) + off * Decimal(eps)
+    txt = format(v.quantize(Decimal(eps)), 'f')
+    if sp.startswith('dbl'):
+        txt += 'e0'
+    return txt if not txt.startswith('-') else f'({txt})'
+
+
 TESTS = {'isint': '{v} instance of xs:integer', 'gt 1': '{v} gt 1', 'eq 1': '{v} eq 1',
          'le 2.5': '{v} le 2.5', "eq 'a'": "{v} eq 'a'"}
 
@@ -227,7 +250,7 @@ def action_versions(action: str, args: tuple):
 
 FN_URI = 'http://www.w3.org/2005/xpath-functions'
 FSTYLES = {'fn': ALLV, 'eqname': V30, 'ref': V30, 'partial': V30, 'arrow': frozenset(('3.1',))}
-FUNCTION_ACTIONS = {'Subseq2', 'Subseq3', 'Remove', 'InsertBefore', 'HeadOf', 'TailOf', 'Reverse', 'Count', 'Empty',
+FUNCTION_ACTIONS = {'Subseq2', 'Subseq3', 'Subseq2Near', 'Subseq3Near', 'Remove', 'InsertBefore', 'HeadOf', 'TailOf', 'Reverse', 'Count', 'Empty',
                     'Exists', 'DistinctValues', 'ZeroOrOne', 'OneOrMore', 'ExactlyOne', 'Sum', 'SumZero', 'Avg', 'Min',
                     'Max', 'IndexOf', 'StringJoin', 'StringJoinAny', 'StringJoinTypeErr'}
 
@@ -267,6 +290,12 @@ def expr_for(X: str, action: str, args: tuple, n: int, sfx: str, fstyle: str = '
         return fcall('subsequence', X, [T(0)], fstyle)
     if action == 'Subseq3':
         return fcall('subsequence', X, [T(0), T(1)], fstyle)
+    if action == 'PredNear':
+        return f'{X}[{near_text(args[0], args[1], args[2], n, True)}]'
+    if action == 'Subseq2Near':
+        return fcall('subsequence', X, [near_text(args[0], args[1], args[2], n)], fstyle)
+    if action == 'Subseq3Near':
+        return fcall('subsequence', X, [near_text(args[0], args[1], args[4], n), near_text(args[2], args[3], args[4], n)], fstyle)
     if action == 'SubseqPred':
         return f'{X}[round({T(0)}) le position() and position() lt round({T(0)}) + round({T(1)})]'
     if action == 'Remove':
@@ -374,6 +403,10 @@ def expr_for(X: str, action: str, args: tuple, n: int, sfx: str, fstyle: str = '
         return f'{X} ! {args[0]}'
     if action == 'NodeFor':
         return f'for {x} in {X} return {x}/{args[0]}'
+    if action == 'AxisPreds':
+        form, ax, c, pp = args
+        step = f'({ax}::*)' if form == 'paren' else f'{ax}::*'
+        return f'for {x} in {X} return {x}/{step}[{c}][{pp}]'
     if action == 'NodePath':
         return f'{X}/{args[0]}'
     if action == 'Comma':
@@ -666,7 +699,7 @@ def features(src, action, args, dst, outcome, version, spelling, level, fstyle='
                 or any(a in ('0.1', '0.1e0', '0.3e0') for a in args if isinstance(a, str)),
                 has_nan=any(x['k'] == 'nan' for x in items),
                 has_str=any(x['t'] == 'str' for x in items),
-                src_types_has_untyped=any(x['t'] == 'unt' or (x['t'] == 'node' and action not in ('NodeMap', 'NodeFor', 'NodePath'))
+                src_types_has_untyped=any(x['t'] == 'unt' or (x['t'] == 'node' and action not in ('NodeMap', 'NodeFor', 'NodePath', 'AxisPreds'))
                                           for x in items),
                 src_has_attr=any(x['t'] == 'node' and x['q'][0] > 1 and x['q'][0] % 2 == 1 for x in items),
                 expected_kind=('err:' + dst['code']) if dst['k'] == 'err' else dst['k'])
@@ -946,13 +979,13 @@ def run(chk: core.Check) -> None:
         print(f'  {name}: states={r.distinct} edges={totals["edges"]} evals={totals["evals"]} tlc={r.wall_s:.1f}s '
               f'load={t1 - t0:.1f}s replay={time.time() - t1:.1f}s', flush=True)
     all_acts = set().union(*chk.coverage['actions_replayed'].values())
-    expected_actions = {'PredNum', 'PredPos', 'PredLast', 'Subseq2', 'Subseq3', 'SubseqPred', 'Remove', 'InsertBefore',
+    expected_actions = {'PredNum', 'PredNear', 'Subseq2Near', 'Subseq3Near', 'PredPos', 'PredLast', 'Subseq2', 'Subseq3', 'SubseqPred', 'Remove', 'InsertBefore',
                         'HeadOf', 'TailOf', 'Reverse', 'ForIndex', 'CommaRange', 'PredRange', 'ToCount', 'For', 'For2',
                         'For2Self', 'Quant', 'Quant2', 'Map', 'PredItem', 'PredSelf', 'Count', 'Empty', 'Exists',
                         'IndexOf', 'DistinctValues', 'ZeroOrOne', 'OneOrMore', 'ExactlyOne', 'Sum', 'SumZero', 'Avg',
                         'Min', 'Max', 'StringJoin', 'StringJoinAny', 'StringJoinTypeErr', 'Comma',
                         'MapFocus', 'ForFocus', 'PredFocus', 'QuantFocus', 'ForDep', 'ForDep3', 'QuantDep',
-                        'NodeMap', 'NodeFor', 'NodePath', 'RangeFn', 'IndexOfC', 'DistinctC'}
+                        'NodeMap', 'NodeFor', 'NodePath', 'AxisPreds', 'RangeFn', 'IndexOfC', 'DistinctC'}
     if expected_actions - all_acts:
         raise tla.MachineryError(f'actions never fired (vacuous): {sorted(expected_actions - all_acts)}')
     chk.coverage['exhaustive'] = True
